@@ -126,6 +126,11 @@ func (v Value) Hash() uintptr {
 	if v.scalar != 0 {
 		return goRuntimeInt64Hash(v.scalar, 0)
 	}
+	if c, ok := v.iface.(*Closure); ok {
+		// Distinct closures can be equal (see Closure.Equals), so their hash
+		// cannot be derived from their address.
+		return c.hash()
+	}
 	return goRuntimeEfaceHash(v.iface, 0)
 }
 
